@@ -39,11 +39,13 @@ def generate(rng, tier):
             i = rng.choice([0, 2 ** w - 1, 2 ** w // 2])
         else:
             i = 2 ** w + rng.getrandbits(rng.randint(1, 12))      # does not fit: zfill never truncates
-        out.append({"fn": "i2b", "i": max(i, 0), "w": w, "lend": rng.random() < 0.5})
+        lend = rng.random() < 0.5
+        out.append({"fn": "i2b", "i": max(i, 0), "w": w, "lend": int(lend) if rng.random() < 0.4 else lend})   # 1/0 as well as True/False
     out += [{"fn": "b2i", "b": [], "lend": l} for l in (False, True)]
     for _ in range(30 if q else 600):
         n = rng.randint(1, 12) if rng.random() < 0.8 else rng.randint(13, 70)
-        out.append({"fn": "b2i", "b": [rng.random() < 0.5 for _ in range(n)], "lend": rng.random() < 0.5})
+        lend = rng.random() < 0.5
+        out.append({"fn": "b2i", "b": [rng.random() < 0.5 for _ in range(n)], "lend": int(lend) if rng.random() < 0.4 else lend})
     # blocks, judged in Coq on all input vectors
     helpers, out = out, []
     out += [{"fn": "half_adder"}, {"fn": "full_adder"}]
@@ -53,6 +55,9 @@ def generate(rng, tier):
                 if q and w == 3 and ci != co:
                     continue            # quick: two of the four flag sets at the largest width
                 out.append({"fn": "adder", "w": w, "ci": ci, "co": co})
+                if w <= 2:
+                    # the same call with the flags as ints 1/0, as Python callers write them (truthiness; Coq sees a bool)
+                    out.append({"fn": "adder", "w": w, "ci": int(ci), "co": int(co)})
     out += [{"fn": "mux", "w": w} for w in range(0, 7 if q else 9)]
     out += [{"fn": "popcount", "w": w} for w in range(0, 5 if q else 7)]
     # widths with two-digit indices (in_10 sorts before in_2 ...): graph equality + the specification on a SUBSET of the
@@ -69,7 +74,8 @@ def generate(rng, tier):
     # several calls in ONE process, both orders, every generator called three times with the first result edited in between
     A1, A2 = ["adder", 1, False, True], ["adder", 2, False, True]
     out.append({"fn": "session", "calls": [["popcount", 3], A1, A2, ["mux", 3], ["half_adder"], ["full_adder"]]})
-    out.append({"fn": "session", "calls": [A1, A2, ["mux", 3], ["popcount", 3], A1, A2, ["adder", 2, True, False], ["mux", 3]]})
+    B1, B2 = ["adder", 1, 0, 1], ["adder", 2, 0, 1]          # int flags
+    out.append({"fn": "session", "calls": [B1, A2, ["mux", 3], ["popcount", 3], A1, B2, ["adder", 2, 1, 0], ["mux", 3]]})
     if not q:
         for _ in range(6):
             calls = []
@@ -78,7 +84,8 @@ def generate(rng, tier):
                 if r < 0.35:
                     calls.append(["popcount", rng.randint(1, 4)])
                 elif r < 0.8:
-                    calls.append(["adder", rng.randint(0, 3), rng.random() < 0.5, rng.random() < 0.6])
+                    fl = [rng.random() < 0.5, rng.random() < 0.6]
+                    calls.append(["adder", rng.randint(0, 3)] + ([int(x) for x in fl] if rng.random() < 0.4 else fl))
                 else:
                     calls.append(["mux", rng.randint(1, 5)])
             out.append({"fn": "session", "calls": calls})
